@@ -120,6 +120,7 @@ def VDen (S : Sty) : LV → DenV → Nat → Prop
     hc < S.nh ∧ (S.hs hc).o = d.head? ∧ (S.hs hc).need < K ∧
     (d.isEmpty = false →
       tc < S.nt ∧ (S.ts tc).d = some d.tail ∧ (S.ts tc).need < K ∧ (S.ts tc).K ≤ K)
+  | .nilIface, _, _ => False      -- the nil interface (a cell whose closure panicked) denotes nothing
 
 theorem VDen.pos {S : Sty} : ∀ {l : LV} {d : DenV} {K : Nat}, VDen S l d K → 1 ≤ K := by
   intro l
@@ -128,6 +129,7 @@ theorem VDen.pos {S : Sty} : ∀ {l : LV} {d : DenV} {K : Nat}, VDen S l d K →
   | cons a t ih => intro d K h; obtain ⟨xs, _, h2⟩ := h; exact ih h2
   | seq xs => intro d K h; exact h.2
   | adaptor hc tc => intro d K h; have := h.2.2.1; omega
+  | nilIface => intro d K h; exact h.elim
 
 theorem VDen.mono {S S' : Sty} (hE : Ext S S') : ∀ {l : LV} {d : DenV} {K K' : Nat},
     VDen S l d K → K ≤ K' → VDen S' l d K' := by
@@ -144,6 +146,7 @@ theorem VDen.mono {S S' : Sty} (hE : Ext S S') : ∀ {l : LV} {d : DenV} {K K' :
     obtain ⟨t1, t2, t3, t4⟩ := h4 hne
     refine ⟨Nat.lt_of_lt_of_le t1 hE.nt, by rw [hE.ts tc t1]; exact t2, by rw [hE.ts tc t1]; omega,
       by rw [hE.ts tc t1]; omega⟩
+  | nilIface => intro d K K' h _; exact h.elim
 
 theorem VDen.monoK {S : Sty} {l : LV} {d : DenV} {K K' : Nat} (h : VDen S l d K) (hk : K ≤ K') :
     VDen S l d K' := VDen.mono (Ext.refl S) h hk
